@@ -502,7 +502,8 @@ def c08(ctx):
     gnu = [x for x in t["active"] if x.endswith("-or-later")]
     ctx.write_params("MC_Spell_P", {"Ids": tla_seq(ids), "Related": "<<" + ", ".join(tla_seq(r) for r in rel) + ">>",
                                     "Exc1": Q(e1), "Exc2": Q(e2), "Plain": Q(rng.choice(roles.unranged)),
-                                    "Gnu": Q(rng.choice(gnu) if gnu else rng.choice(roles.unranged) + "-or-later")})
+                                    "Gnu": Q(rng.choice(gnu) if gnu else rng.choice(roles.unranged) + "-or-later"),
+                                    "Last": Q(max(roles.unranged))})
     ctx.notes.append("spell: %d ids, %d (id, related) states" % (len(ids), sum(len(r) for r in rel)))
     r = ctx.run_tlc("spell", "MC_Spell", "MC_Spell", timeout=3000, extra=["-continue"])
     import re as _re
@@ -1006,6 +1007,32 @@ def c14(ctx):
                                     "a": [ranged[0][:-1]]} for n in sizes]
         extra["AndChainRangedDistinct"] = [{"family": "AndChainRangedDistinct", "n": n, "e": " AND ".join(ranged[:n]), "a": [ranged[0][:-1]]}
                                            for n in range(2, min(len(ranged), 16) + 1, 2)]
+    # structural families: left / right nesting with leaf, AND-pair and OR-pair operands; one group repeated n times
+    def T(k):
+        return "LicenseRef-%d" % k
+    small = [n for n in sizes if n <= 64]
+    for op in ("AND", "OR"):
+        for kind, operand in (("leaf", lambda k: T(k)), ("andpair", lambda k: T(2 * k) + " AND " + T(2 * k + 1)),
+                              ("orpair", lambda k: "(" + T(2 * k) + " OR " + T(2 * k + 1) + ")")):
+            if op == "AND" and kind == "orpair":
+                continue    # an AND of OR groups is the known family (D8)
+            lname, rname = "LeftNest-%s-%s" % (op, kind), "RightNest-%s-%s" % (op, kind)
+            extra[lname], extra[rname] = [], []
+            for n in small:
+                e = T(0)
+                for k in range(1, n + 1):
+                    e = "(" + e + ") " + op + " " + operand(k)
+                extra[lname].append({"family": lname, "n": n, "e": e})
+                e = T(0)
+                for k in range(1, n + 1):
+                    e = operand(k) + " " + op + " (" + e + ")"
+                extra[rname].append({"family": rname, "n": n, "e": e})
+    for op in ("AND", "OR"):
+        for gname, grp in (("andgroup", "(MIT AND ISC)"), ("orgroup", "(MIT OR ISC)"), ("term", "MIT")):
+            if op == "AND" and gname == "orgroup":
+                continue
+            name = "Repeat-%s-%s" % (op, gname)
+            extra[name] = [{"family": name, "n": n, "e": (" " + op + " ").join([grp] * n), "a": ["MIT"]} for n in small]
     fams.update(extra)
     points, nontrivial = [], 0
     poly_note = {}
@@ -1080,6 +1107,18 @@ def c15(ctx):
         run_lex(ctx, "offsets2", rng, 2, [" "], prefixes=pre)
     ctx.drive("trace", "invalid", 1500 if thorough else 400, leaves=6)
     ctx.validate_trace("trace")
+    # long expressions (several KB, several rewrites more than 4 KiB apart): the offender's position is known by construction
+    lp = subprocess.run([ctx.harness, "longoffsets", "-seed", str(ctx.seed), "-n", str(300 if thorough else 60)], capture_output=True, text=True, timeout=900)
+    try:
+        lo = json.loads(lp.stdout)
+    except ValueError:
+        raise Infra("longoffsets failed: " + lp.stderr[-1500:])
+    ctx.replayed += lo["cases"]
+    for b in lo.get("bad") or []:
+        ctx.mismatches.append({"what": "panic" if b["panic"] else "offset", "fn": b["fn"], "expr": "<%d bytes> ...%s" % (b["len"], b["tail"]), "list": [],
+                               "expected": {"offset": b["wantOffset"], "lexeme": b["wantLexeme"]}, "observed": {"offset": b["gotOffset"], "lexeme": b["gotLexeme"]},
+                               "source": "long-offsets (position known by construction)"})
+    ctx.stages.append({"stage": "long-offsets", "kind": "expressions of 4-8 KB with rewrites far apart, offender at a position known by construction", "cases": lo["cases"]})
     sessions(ctx)
     large_inputs(ctx)
     return finish(ctx, relevant={"offset", "lexeme", "offset-no-error"},
